@@ -154,3 +154,10 @@ reg('C11', 'streams', 'rule_tee_forward')
 reg('C06', 'streams', 'rule_tee_forward')
 reg('C10', 'streams', 'rule_tee_forward')
 reg('C15', 'jsonmap', 'rule_json_entries_alike')
+reg('C12', 'bounds', 'rule_vlq_terminated')
+# ---- round 6
+reg('C09', 'streams', 'rule_prefill')
+reg('C11', 'streams', 'rule_prefill')
+reg('C10', 'replace_cache', 'rule_sibling_splice')   # replay streams rope(): it must render to source()
+reg('C04', 'replace_cache', 'rule_sibling_splice')
+reg('C07', 'caches', 'rule_memo')                    # a memoised view has one meaning: all initialisers of a cell agree
